@@ -790,8 +790,8 @@ func overlapOf(ops []cop) (n int) {
 // execution for linearisability, and emits the linearisation of the execution with the most
 // real-time overlap.  The program fails if >= 3 executions are not linearisable (a single
 // non-reproducible miss is counted in the evidence, not reported: see checks/C09.json).
-func doConc(w *vh.W, max uint64, prefix []jop, threads [][]jop, barrier bool) {
-	const execs, tolerated = 12, 2
+func doConc(w *vh.W, max uint64, prefix []jop, threads [][]jop, barrier bool, execs int) {
+	const tolerated = 2
 	var best, bad *execution
 	fails := 0
 	for a := 0; a < execs; a++ {
@@ -1210,9 +1210,27 @@ func probe(w *vh.W, name string) {
 	}
 }
 
+// stress programs: fixed small concurrent programs aimed at the cache's own synchronisation
+// (double-checked entry creation in ring.partition.write, entry.mu, c.mu around the snapshot
+// swap), each executed under many schedules; every execution must linearise.
+func stressPrograms(g *gen) (out [][][]jop) {
+	g.unique = true
+	defer func() { g.unique = false }()
+	one := func(k string, ts int64, t string) jop {
+		return jop{Op: "write", Batch: []jkv{{Key: k, Pts: []jpoint{g.pt(ts, t)}}}}
+	}
+	// S1: four goroutines create the same new key at once (same timestamp: the order is observable)
+	out = append(out, [][]jop{{one("a", 1, "f")}, {one("a", 1, "f")}, {one("a", 1, "f")}, {one("a", 1, "f"), {Op: "values", Key: "a"}}})
+	// S2: writers with conflicting types race for the creation of one key, a reader in parallel
+	out = append(out, [][]jop{{one("bb", 1, "i"), one("bb", 2, "i")}, {one("bb", 1, "f"), one("bb", 3, "f")}, {{Op: "values", Key: "bb"}, {Op: "values", Key: "bb"}}})
+	// S3: a snapshot cycle against writers and a reader of the same key
+	out = append(out, [][]jop{{{Op: "snapshot"}, {Op: "clear", Success: true}}, {one("a", 1, "f"), one("a", 2, "f")}, {one("a", 1, "f"), one("ccc", 1, "s")}, {{Op: "values", Key: "a"}, {Op: "values", Key: "a"}}})
+	return
+}
+
 func main() {
 	w := vh.New("C09", "From Verif Require Import Base.Prelude Model.C09.\nLocal Open Scope Z_scope.", "case", "check")
-	w.Rule = "hand-picked regression histories first; then random histories on the real tsm1.Cache over keys a/bb/ccc (+ absent zz), timestamps 1..6, value types f/i/s (b,u rarely), maxSize in {0,10,40,66,100,200,1000}: 5-18 ops of WriteMulti (1-3 keys x 0-3 points, duplicates and type conflicts frequent, empty and mixed batches rare) / Values / Snapshot / ClearSnapshot(ok) / DeleteRange (boundary-biased ranges incl. MinInt64/MaxInt64, min>max, repeated and absent keys) / Delete / Size / Keys, followed by a full observation (Size, Values of every key, Keys); every 4th case is a concurrent history (2-4 goroutines, <= 8 concurrent ops, engine locking discipline) emitted as prefix ++ found linearisation ++ final observation. Non-trivial (seq): >=1 accepted write and >=1 snapshot/clear/delete op; (conc): at least one pair of ops of different goroutines overlapped in real time. Distinct: distinct Gallina terms."
+	w.Rule = "hand-picked regression histories first; then random histories on the real tsm1.Cache over keys a/bb/ccc (+ absent zz), timestamps 1..6, value types f/i/s (b,u rarely), maxSize in {0,10,40,66,100,200,1000}: 5-18 ops of WriteMulti (1-3 keys x 0-3 points, duplicates and type conflicts frequent, empty and mixed batches rare) / Values / Snapshot / ClearSnapshot(ok) / DeleteRange (boundary-biased ranges incl. MinInt64/MaxInt64, min>max, repeated and absent keys) / Delete / Size / Keys, followed by a full observation (Size, Values of every key, Keys); 3 fixed stress programs (same-key creation race, conflicting-type creation race, snapshot cycle vs writers/reader) under 300 (thorough: 3000) schedules each and every 4th random case is a concurrent history (2-4 goroutines, <= 8 concurrent ops, 12 schedules, engine locking discipline), every execution checked for linearisability, emitted as prefix ++ found linearisation ++ final observation. Non-trivial (seq): >=1 accepted write and >=1 snapshot/clear/delete op; (conc): at least one pair of ops of different goroutines overlapped in real time. Distinct: distinct Gallina terms."
 	var rc jcase
 	if w.ReplayCase(&rc) {
 		var rp jprobe
@@ -1222,7 +1240,7 @@ func main() {
 			return
 		}
 		if rc.Mode == "conc" && len(rc.ConcThreads) > 0 {
-			doConc(w, rc.Max, rc.ConcPrefix, rc.ConcThreads, true)
+			doConc(w, rc.Max, rc.ConcPrefix, rc.ConcThreads, true, 300)
 		} else {
 			runSeq(w, &rc)
 		}
@@ -1238,10 +1256,17 @@ func main() {
 	for _, name := range []string{"init-race", "write-delete-race", "limit-race"} {
 		probe(w, name)
 	}
+	execs := 300
+	if w.N >= 5000 {
+		execs = 3000
+	}
+	for _, threads := range stressPrograms(g) {
+		doConc(w, 0, []jop{{Op: "delete", Keys: []string{"zz"}}}, threads, true, execs)
+	}
 	for i := 0; w.Len() < w.N; i++ {
 		if i%4 == 3 {
 			max, prefix, threads := g.concCase()
-			doConc(w, max, prefix, threads, w.Rng.IntN(5) != 0)
+			doConc(w, max, prefix, threads, w.Rng.IntN(5) != 0, 12)
 		} else {
 			runSeq(w, g.seqCase())
 		}
